@@ -2,6 +2,7 @@ import NurbsVerif.Model.Eval
 import NurbsVerif.Lemmas.Deriv
 import NurbsVerif.Lemmas.Small
 import NurbsVerif.Lemmas.DerivAll
+import NurbsVerif.Lemmas.RatDers
 
 /-!
 # C02  Derivatives returned are the true derivatives of the shape  (statements so far)
@@ -34,6 +35,17 @@ theorem span_polynomial_is_the_curve (p : ℕ) (U : ℕ → F) (P : List (List F
   unfold spanPoly
   rw [eval_polP]
   simp only [eval_C]
+
+/-- **Rational curves (A4.2, the list model of `CurveEvaluatorRational.derivatives`)**: the returned
+    vectors `C⁽⁰⁾ … C⁽ⁿ⁾` solve the Leibniz system `Σ_i C(k,i) · w⁽ⁱ⁾ · C⁽ᵏ⁻ⁱ⁾ = A⁽ᵏ⁾` of every order `k`, in
+    every coordinate, where `A⁽ᵏ⁾`, `w⁽ᵏ⁾` are the derivatives of the homogeneous curve (which are the
+    true derivatives by the theorem above): i.e. they are the derivatives of the quotient `A / w`
+    (the system has exactly one solution when `w⁽⁰⁾ ≠ 0`). -/
+theorem rational_curve_derivatives_leibniz (CKw : List (List F)) (d : ℕ) (hrows : ∀ r ∈ CKw, r.length = d + 1)
+    (hw : (CKw.getD 0 []).getD d 0 ≠ 0) (k j : ℕ) (hk : k < CKw.length) (hj : j < d) :
+    ∑ i ∈ Finset.range (k+1), (Nat.choose k i : F) * (CKw.getD i []).getD d 0 * ((ratCurveDers CKw).getD (k - i) []).getD j 0
+      = (CKw.getD k []).getD j 0 :=
+  ratCurveDers_leibniz CKw d hrows hw k j hk hj
 
 end ordered
 
